@@ -177,6 +177,29 @@ static void fixed(void) {
     check_string(s, "rem", &r);
     del(s);
   }
+  /* formatted writes, appends and assignments of every length 1..400: a String that buffers or grows per piece has
+     its boundaries at piece lengths */
+  vh.oplen = 0; vh.oplog[0] = 0; vh.nops = 0;
+  vh_op("formatted write / append / assign of every length 1..400");
+  static char piece[512];
+  for (int n = 1; n <= 400; n++) {
+    memset(piece, 'a' + n % 26, (size_t)n); piece[n] = 0;
+    var exc; int ret = -1;
+    var s = new(String, $S("head:"));
+    VH_CATCH(ret = print_to(s, 5, "%s", $S(piece)), exc);
+    snprintf(ref_, sizeof ref_, "head:%s", piece);
+    if (exc) { vh_violation("C16:op:print_to-raised", "print_to of a %d-character piece raised %s", n, vh_exc_name(exc)); }
+    else if (ret != 5 + n) { vh_violation("C16:op:print_to-position", "print_to of a %d-character piece returned %d", n, ret); }
+    check_string(s, "print_to of one piece", &r);
+    VH_CATCH(append(s, $S(piece)), exc);
+    snprintf(ref_, sizeof ref_, "head:%s%s", piece, piece);
+    check_string(s, "append", &r);
+    VH_CATCH(assign(s, $S(piece)), exc);
+    snprintf(ref_, sizeof ref_, "%s", piece);
+    check_string(s, "assign", &r);
+    del(s);
+    vh_count("piece_lengths_swept");
+  }
 }
 
 int main(int argc, char** argv) {
